@@ -49,8 +49,8 @@ def check(ctx: Ctx) -> str:
         fi = repo.func(f"runtime:BlockReference.{meth}")
         ctx.check("self._stack[self._depth](self._context)" in fi.ntext, f"BlockReference.{meth}", f"runtime:BlockReference.{meth}", "renders its own depth", f"BlockReference.{meth} must render self._stack[self._depth] with the reference's context", fi.loc())
     tr = repo.func("runtime:TemplateReference.__getitem__")
-    s = ast.unparse(tr.node)
-    ctx.check("BlockReference(name, self.__context, blocks, 0)" in s.replace("_TemplateReference__context", "__context"), "self.block:head", "runtime:TemplateReference.__getitem__", "self.<block>() renders the head", "self.<block>() must reference depth 0 (the most-derived block)", tr.loc())
+    s = tr.ntext  # normal form: locals naming the context / the block stack are inlined
+    ctx.check("BlockReference(name, self.__context, self.__context.blocks[name], 0)" in s.replace("_TemplateReference__context", "__context"), "self.block:head", "runtime:TemplateReference.__getitem__", "self.<block>() renders the head", "self.<block>() must reference depth 0 (the most-derived block)", tr.loc())
     vt = repo.func("compiler:CodeGenerator.visit_Template")
     s = ast.unparse(vt.node)
     ctx.check("context.super({name!r}, block_{name})" in s, "super binding", "compiler:CodeGenerator.visit_Template", "super() bound to the block's own function", "inside block_<name> super must be context.super(<name>, block_<name>)", vt.loc())
